@@ -288,6 +288,9 @@ class ExprMixin:
         if e.attr == "inf" and isinstance(e.value, ast.Name) and e.value.id == "math" and "math" not in p.env:
             return T.scalar(T.XINT, T.XIntS.pinf)      # math.inf, used as the neutral element of a running min / max over integers
         base = self.ev(e.value, p)
+        if isinstance(e.value, ast.Name) and not self.spec_mode and (
+                (isinstance(base.ty, T.Obj) and e.attr not in base.fields) or isinstance(base.ty, (T.Bag, T.Set, T.Map, T.Seq)) or base.ty in (T.EMPTYLIST, T.EMPTYSET, T.EMPTYDICT)):
+            return SV(T.BOUND, obj=e.value.id, attr=e.attr)        # a method reference, to be called later through its alias
         if isinstance(base.ty, T.Obj):
             if e.attr not in base.fields:
                 raise Unsupported(f"field {e.attr} of {base.ty} is not in the declared layout")
@@ -324,14 +327,28 @@ class ExprMixin:
     def ev_List(self, e, p):
         if not e.elts:
             return SV(T.EMPTYLIST)
-        return self.tuple_of([self.ev(x, p) for x in e.elts], p)
+        vals = [self.ev(x, p) for x in e.elts]
+        if all(v.ty == T.INT for v in vals):
+            return self.tuple_of(vals, p)
+        if all(v.ty == vals[0].ty and v.ty.scalar and v.ty.sort() is not None for v in vals):
+            # [a, b, ..] of non-node values: a list whose order is not modelled
+            bt = T.Bag(vals[0].ty)
+            b = z3.K(vals[0].ty.sort(), z3.IntVal(0))
+            for v in vals:
+                b = z3.Store(b, v.t, b[v.t] + 1)
+            out = fresh("listlit", bt.sort())
+            p.assume(out == b)
+            p.assume(bt.blen()(out) == len(vals))
+            return T.scalar(bt, out)
+        return self.tuple_of(vals, p)
 
     def ev_Tuple(self, e, p):
         vals = [self.ev(x, p) for x in e.elts]
         return self.tuple_of(vals, p)
 
     def tuple_of(self, vals, p):
-        if len(vals) == 2 and not (vals[0].ty == T.INT and vals[1].ty == T.INT):
+        int_pairs = self.cur is not None and "int_pairs" in self.cur.options and not self.spec_mode   # (node, depth) records, not 2-node hyperedges
+        if len(vals) == 2 and (int_pairs or not (vals[0].ty == T.INT and vals[1].ty == T.INT)):
             a, b = vals
             if a.ty.scalar and b.ty.scalar and a.ty.sort() is not None and b.ty.sort() is not None:
                 pt = T.Pair(a.ty, b.ty)
@@ -393,6 +410,9 @@ class ExprMixin:
             self.guards.append(terms[0] if is_and else z3.Not(terms[0]))
             pushed += 1
             for sub in e.values[1:]:
+                last = z3.simplify(terms[-1])
+                if (z3.is_false(last) and is_and) or (z3.is_true(last) and not is_and):
+                    break        # short circuit decided by a literal: the remaining operands are never evaluated
                 t = self.truth(self.ev(sub, p), p)
                 terms.append(t)
                 self.guards.append(t if is_and else z3.Not(t))
